@@ -95,10 +95,13 @@ CONSUMERS = [
     "{% set fs %}<i>{a}</i>{b}{% endset %}{{ fs.format_map({'a': C, 'b': y}) }}", "{% set fs %}<i>%s</i>%s{% endset %}{{ fs % (C, y) }}",
     "{% set fs %}<i>%s</i>%s{% endset %}{{ fs|format(C, y) }}",
     # (a PLAIN format string is not a consumer: str % Markup is a new unsafe str by MarkupSafe's rules, escaped once as a whole)
+    # failed lookups: what an undefined prints (DebugUndefined embeds the failed key / name) is a value like any other
+    "{{ dd[y] }}|{{ C }}", "{{ dd[y].z }}{{ missing_name }}|{{ dd.k }}{{ C }}",
     # constants of every type are escaped like any other value
     "{{ ['&lt;', '<'] }}{{ {'k': '&amp;<'} }}{{ ('&gt;',) }}{{ 1 ~ '&lt;' }}{{ '&lt;' ~ 1.5 }}{{ ['&lt;']|first }}{{ C }}",
 ]
 ENV_CLASSES = ("Environment", "SandboxedEnvironment", "ImmutableSandboxedEnvironment")
+UNDEFINEDS = ("Undefined", "DebugUndefined", "ChainableUndefined")
 
 
 class TNode:
@@ -116,24 +119,38 @@ def family_shard(arg):
                   "base": "B[{% block blk %}b{{ x }}{% endblock %}]"}
     import jinja2.sandbox
 
-    for cons, ecls in ((c, e) for c in CONSUMERS for e in ENV_CLASSES):
+    # ways of switching autoescape on/off: the constant, and a callable that decides by template name (what
+    # select_autoescape is); "named-*" answers the opposite for `None`, so code compiled without the name shows
+    how_on = {"bool": True, "named": lambda name: name is not None}
+    how_off = {"bool": False, "named": lambda name: name is None}
+    for cons, ecls, undef in ((c, e, u) for c in CONSUMERS for e in ENV_CLASSES for u in UNDEFINEDS):
+        if undef != "Undefined" and ecls != "Environment":
+            continue
         src = prelude + cons.replace("C", cexpr)
         for async_ in (False, True):
             outs = {}
-            for ae in (False, True):
-                env = getattr(jinja2.sandbox, ecls)(loader=jinja2.DictLoader(dict(loader_map)), autoescape=ae, enable_async=async_)
+            for how in ("bool", "named"):
+              for ae in (False, True):
+                env = getattr(jinja2.sandbox, ecls)(loader=jinja2.DictLoader(dict(loader_map, main=src)), enable_async=async_,
+                                                    autoescape=(how_on if ae else how_off)[how], undefined=getattr(jinja2, undef))
                 data = {"x": TAINT, "y": "y" + TAINT, "tree": [TNode(TAINT, [TNode("a" + TAINT)]), TNode("b")],
-                        "cyc": jinja2.utils.Cycler(TAINT, "k")}
+                        "cyc": jinja2.utils.Cycler(TAINT, "k"), "dd": {}}
                 if async_:
-                    outs[ae] = corpus.outcome(lambda: e4.run(env.from_string(src).render_async(**data)))
+                    outs[how, ae] = corpus.outcome(lambda: e4.run(env.get_template("main").render_async(**data)))
                 else:
-                    outs[ae] = corpus.outcome(lambda: env.from_string(src).render(**data))
+                    outs[how, ae] = corpus.outcome(lambda: env.get_template("main").render(**data))
             p.evals += 1
-            off, on = outs[False], outs[True]
-            p.sig(("fam", cname, CONSUMERS.index(cons), isinstance(off, tuple), async_, ecls))
+            for ae in (False, True):
+                if outs["named", ae] != outs["bool", ae]:
+                    p.violation(f"C16/name-dependent-autoescape-differs/carrier-{cname}", {
+                        "msg": f"{src!r} ({ecls}, async={async_}): autoescape={ae} as a constant -> {outs['bool', ae]!r}; decided by a "
+                               f"callable from the template name -> {outs['named', ae]!r}",
+                        "script": "print(%r)\n" % src})
+            off, on = outs["bool", False], outs["bool", True]
+            p.sig(("fam", cname, CONSUMERS.index(cons), isinstance(off, tuple), async_, ecls, undef))
             if not relation_ok(off, on):
                 p.violation(f"C16/double-or-missing-escape/carrier-{cname}" + ("/async" if async_ else "") + ("" if ecls == "Environment" else "/sandbox"), {
-                    "msg": f"{src!r} ({ecls}, async={async_}): autoescape off -> {off!r}; on -> {on!r}; unescaped once -> "
+                    "msg": f"{src!r} ({ecls}, undefined={undef}, async={async_}): autoescape off -> {off!r}; on -> {on!r}; unescaped once -> "
                            f"{html.unescape(on) if isinstance(on, str) else on!r}",
                     "script": "print(%r)\n" % src})
     p.sample({"carrier": cname, "consumers": len(CONSUMERS)}, cap=1)
